@@ -58,7 +58,6 @@ package main
 //@   ensures old(wantMnt[slots[i].mnt]) || old(wantDev[slots[i].mnt.DeviceID]) ==> result == false && replProt == old(replProt) && replWant == old(replWant)
 //@   ensures old(slots[i].want) ==> slots[i].want
 //@   ensures slots[i].mnt == old(slots[i].mnt) && slots[i].repl == old(slots[i].repl)
-//@   ensures replProt >= old(replProt) && replWant >= old(replWant)
 
 // balanceBlock: the emission rules.  A trash request is generated only for a
 // replica that is not wanted and older than the signature TTL horizon
@@ -67,10 +66,12 @@ package main
 // replica exists, from the first known replica's server; a wanted slot with no
 // replica anywhere makes the block "lost".  "Under-replicated" is sticky over
 // the storage classes (once any class is short, nothing is trashed).
-//@ func Balancer.balanceBlock property C05 safety -bounds
+//@ func Balancer.balanceBlock property C05 safety -bounds,-makeslice
+//@   loop 6: invariant 0 <= i
+//@   loop 7: invariant 0 <= i
 //@   ghost u0 bool = false
 //@   at assign desired#1: set u0 = underreplicated
-//@   at loop 6 back: assert u0 ==> underreplicated
-//@   calls KeepService.AddTrash#1: requires !slot.want && slot.repl != nil && slot.repl.Mtime < bal.MinMtime && $0.SizedDigest == blkid && $0.Mtime == slot.repl.Mtime && $0.From == slot.mnt
-//@   calls KeepService.AddPull#1: requires slot.repl == nil && slot.want && !slot.mnt.ReadOnly && len(blk.Replicas) > 0 && $0.SizedDigest == blkid && $0.From == blk.Replicas[0].KeepMount.KeepService && $0.To == slot.mnt
+//@   at loop 5 back: assert u0 ==> underreplicated
+//@   calls ChangeSet.AddTrash#1: requires !slot.want && slot.repl != nil && slot.repl.Mtime < bal.MinMtime && $0.SizedDigest == blkid && $0.Mtime == slot.repl.Mtime && $0.From == slot.mnt
+//@   calls ChangeSet.AddPull#1: requires slot.repl == nil && slot.want && !slot.mnt.ReadOnly && len(blk.Replicas) > 0 && $0.SizedDigest == blkid && $0.From == blk.Replicas[0].KeepMount.KeepService && $0.To == slot.mnt
 //@   calls keepclient.NewRootSorter#1: requires $0 == bal.serviceRoots && $1 == string(blkid)[0:32]
